@@ -21,7 +21,7 @@ ASSUME = ["`lorem` is not used (its randomness is the only documented impurity)"
           "instance counting sees emmet-defined class instances and module-level/default-argument containers, not interned strings or C-level state"]
 
 ABBRS_M = ['ul>li*2', 'ul>li*', 'p{$#}*', 'a', 'a[href=x]{t}', 'div.b_m>.-e', 'ul.nav>.-item*2>._active', 'div.b>div.-e>div.-e', 'bad', 'bad2>p', 'x1+bad', 'a[', 'p{', '(a',
-           'foo', 'foo.a.b', 'p{${v}}', 'vare>p', 'tm', '!', 'table>.r>.c', 'ul>li.i$*3', 'a:link', 'select>.o', 'ul>li*5', 'x1*4>x2*2']
+           'foo', 'foo.a.b', 'p{${v}}', 'vare>p', 'tm', '!', 'table>.r>.c', 'ul>li.i$*3', 'a:link', 'select>.o', 'ul>li*5', 'x1*4>x2*2', '', '()', '()*3', '(())']
 ABBRS_C = ['m10', 'p10-20', 'm', 'p', 'bd', 'c#fc0', 'fz1.5', 'lh2', 'z10', 'm10+p', 'bad', 'xx', 'm-a', 'pos:a', 'trf:rx', 'w100p', 'mah', 'p!', '(', 'm10-']
 
 CFG_M = [
@@ -256,7 +256,7 @@ def history(draw):
 
 def pair_cases():
     "every ordered pair of a fixed family of steps (same or different config), plus failing-then-succeeding triples"
-    fam_m = [(a, c) for a in ('ul>li*', 'bad', 'a[', 'div.b_m>.-e', 'foo.a.b', 'ul>li*5') for c in (1, 2, 3, 5, 6, 7, 12)]
+    fam_m = [(a, c) for a in ('ul>li*', 'bad', 'a[', 'div.b_m>.-e', 'foo.a.b', 'ul>li*5', '', '()') for c in (1, 2, 3, 5, 6, 7, 12)]
     for (a1, c1) in fam_m:
         for (a2, c2) in fam_m:
             cfgs = [CFG_M[c1]] + ([CFG_M[c2]] if c2 != c1 else [])
